@@ -3,6 +3,7 @@ import Driver.DictRt
 import Driver.Codec
 import Driver.Stream
 import Driver.Retry
+import Driver.Mux
 /-!
   Driver — reads correspondence lines `domain op args… => impl-output` on stdin and prints,
   per line, tab-separated: index, agree|DISAGREE|BADLINE, Spec verdicts (comma separated or
@@ -48,6 +49,12 @@ def handle (st : St) (idx : Nat) (line : String) : St × String :=
           | [mode, cs] => (st, emit idx impl (judgeFind dict ((kvNat rest "app").getD 0) as mode (parseCodes cs) implToks))
           | _ => bad)
        | _, _ => bad)
+    | "mux" :: "dispatch" :: rest =>
+      let (i', j) := judgeMux dict st.intern ((kv rest "regs").getD "-") ((kv rest "msg").getD "") implToks
+      ({ st with intern := i' }, emit idx impl j)
+    | "mux" :: "seq" :: rest =>
+      let (i', j) := judgeMuxSeq dict st.intern ((kv rest "ops").getD "-") implToks
+      ({ st with intern := i' }, emit idx impl j)
     | "retry" :: "write" :: rest =>
       (match (kv rest "b").bind fromHex with
        | some b => (st, emit idx impl (judgeRetry ((kvNat rest "r").getD 0) (parseOutcomes ((kv rest "outs").getD "-")) b implToks))
